@@ -32,7 +32,9 @@ RULE = ("one unit = one configuration (grid x (minishard,shard,preshift) "
         "Big-payload family: three chunk-length patterns (0..12289 bytes "
         "around the 4096-byte block size of the write buffers; small chunks "
         "after big ones; 1..131073 bytes so that one minishard exceeds 64 "
-        "KiB), 4 orders x both strategies. "
+        "KiB; payloads that look like zlib / gzip streams in raw datasets), grids "
+        "of 64 and 125 chunks spread over 64 .. 128 shards, 4 orders x both "
+        "strategies. "
         "Non-trivial states: >= 2 chunks stored.")
 ASSUMPTIONS = [
     "one write session per scale, each chunk stored once (the statement's "
@@ -129,6 +131,20 @@ def big_configs():
                     out.append({"size": list(size), "chunk": c,
                                 "triple": list(t), "index_enc": ie,
                                 "data_enc": de, "payloads": mode})
+    # payloads that look like compressed streams, raw and gzip datasets
+    for size, c in BIG_GRIDS[:2]:
+        for t in BIG_TRIPLES[:2]:
+            for ie, de in (("raw", "raw"), ("raw", "gzip"), ("gzip", "raw")):
+                out.append({"size": list(size), "chunk": c,
+                            "triple": list(t), "index_enc": ie,
+                            "data_enc": de, "payloads": "magic"})
+    # more than 32 / 64 shards touched in one write session
+    for t in ((0, 6, 0), (1, 6, 0), (0, 7, 0), (2, 5, 1)):
+        out.append({"size": [4, 4, 4], "chunk": 1, "triple": list(t),
+                    "index_enc": "raw", "data_enc": "raw",
+                    "payloads": "big2" if t == (0, 7, 0) else "magic"})
+    out.append({"size": [5, 5, 5], "chunk": 1, "triple": [0, 7, 0],
+                "index_enc": "raw", "data_enc": "raw", "payloads": "magic"})
     return out
 
 
